@@ -42,48 +42,6 @@ theorem timing_exact (cfg : Cfg) (c : List (Int × Nat)) (hn : (keys c).Nodup) (
 
 /-! ## MESSAGE_TRAFFIC: the split into sub-messages -/
 
-theorem chunks_flatten (n : Nat) (hn : 0 < n) : ∀ (fuel : Nat) (l : List (Int × Nat)), l.length < fuel →
-    (chunks n l fuel).flatten = l
-  | 0, l, h => by omega
-  | fuel + 1, l, h => by
-    unfold chunks
-    split
-    · split <;> simp_all
-    · rename_i hc
-      have hlen : n < l.length := by omega
-      rw [List.flatten_cons, chunks_flatten n hn fuel (l.drop n) (by simp; omega), List.take_append_drop]
-
-/-- every sub-message carries between 1 and `MESSAGE_TRAFFIC_SIZE` real entries; all but the last are full -/
-theorem chunks_sizes (n : Nat) (hn : 0 < n) : ∀ (fuel : Nat) (l : List (Int × Nat)) (c : List (Int × Nat)),
-    c ∈ chunks n l fuel → 0 < c.length ∧ c.length ≤ n
-  | 0, l, c, h => by simp [chunks] at h
-  | fuel + 1, l, c, h => by
-    unfold chunks at h
-    split at h
-    · rename_i hc
-      split at h
-      · simp at h
-      · rename_i he
-        simp at h; subst h
-        have : c ≠ [] := by simpa using he
-        exact ⟨List.length_pos_iff.mpr this, by omega⟩
-    · rename_i hc
-      simp only [List.mem_cons] at h
-      rcases h with rfl | h
-      · simp; omega
-      · exact chunks_sizes n hn fuel _ c h
-
-theorem enumFrom1_fst : ∀ (i : Nat) (l : List (List (Int × Nat))),
-    (enumFrom1 i l).map (·.1) = (List.range l.length).map (· + i)
-  | i, [] => rfl
-  | i, c :: r => by
-    simp only [enumFrom1, List.map_cons, List.length_cons, List.range_succ_eq_map, List.map_map, enumFrom1_fst (i + 1) r]
-    simp; intro a _; omega
-
-theorem enumFrom1_snd : ∀ (i : Nat) (l : List (List (Int × Nat))), (enumFrom1 i l).map (·.2) = l
-  | _, [] => rfl
-  | i, c :: r => by simp [enumFrom1, enumFrom1_snd (i + 1) r]
-
 /-- the real (non-filler) entries of one sub-message -/
 def realEntries (b : Body) (len : Nat) : List (Int × Nat) :=
   match b with
